@@ -38,6 +38,7 @@ Qed.
 
 (** readers that never answer: enough for witnesses that do not involve text *)
 Definition no_reader (p : dprim) (s : text) : out nv := VFault.
+Definition no_decode (b : text) : option text := None.
 
 (** MessagePack: a ByteArray member receives whatever the document holds, in a 1-tuple *)
 Lemma dict_msgpack_bytes_refuted :
@@ -45,18 +46,18 @@ Lemma dict_msgpack_bytes_refuted :
     d_proto C = PMsgpack /\ d_soft C = true /\ d_leaf C = dict_leaf PMsgpack /\ dwf U = true
     /\ fdv C U fuel t true d = Ok v /\ ~ has_dtype U v t.
 Proof.
-  exists (mkdcfg PMsgpack true true (dict_leaf PMsgpack) no_reader no_reader), [], 1%nat, (DPrim DBytes), (JInt 3),
+  exists (mkdcfg PMsgpack true true (dict_leaf PMsgpack) no_reader no_reader no_decode), [], 1%nat, (DPrim DBytes), (JInt 3),
          (NTuple (JInt 3)).
   repeat split; try reflexivity. cbn. intro H. exact H.
 Qed.
 
 (** the code before the repairs (all three choices the other way): an Integer member receives
     the float 2.0, a Boolean member the int 1, a ComplexModel member the list [] *)
-Definition unrepaired : leaf_cfg := mkleafcfg false false false.
+Definition unrepaired : leaf_cfg := mkleafcfg false false false false.
 Definition one_class : duniverse := [ mkdc [75] None [ mkdf [105] (DPrim (DInt None None)) 0 (Some 1) true ] [] ].
 
 Lemma dict_unrepaired_refuted :
-  let C := mkdcfg PJson true true unrepaired no_reader no_reader in
+  let C := mkdcfg PJson true true unrepaired no_reader no_reader no_decode in
   dwf one_class = true
   /\ (fdv C one_class 2 (DPrim (DInt None None)) true (JFlt (FInt 2)) = Ok (NFlt (FInt 2))
       /\ ~ has_dtype one_class (NFlt (FInt 2)) (DPrim (DInt None None)))
